@@ -41,6 +41,7 @@ type obj struct {
 	lin  *scale.Linear
 	lg   *scale.Log
 	ud   *stats.UDist
+	fn   func(float64) float64 // a function derived from the library (InvCDF(dist), LOESS fit): shared like any object
 }
 
 func fbits(xs []float64) []uint64 {
@@ -111,6 +112,8 @@ func (o *obj) snapshot() []uint64 {
 		return []uint64{math.Float64bits(o.lg.Min), math.Float64bits(o.lg.Max), uint64(o.lg.Base), bbit(o.lg.Clamp)}
 	case "ud":
 		return append([]uint64{uint64(o.ud.N1), uint64(o.ud.N2)}, ibits(o.ud.T)...)
+	case "fn":
+		return nil // a derived function has no state of its own: what it returns is compared call by call
 	}
 	panic("snapshot kind " + o.kind)
 }
@@ -144,6 +147,21 @@ func buildObj(t Tok, heap []*obj) *obj {
 			if t.Arr[2].IsArr {
 				o.smp.Weights = t.Arr[2].Fs()
 			}
+		}
+	case "fn":
+		switch t.Arr[1].Atom {
+		case "loess":
+			o.fn = fit.LOESS(t.Arr[2].Fs(), t.Arr[3].Fs(), t.Arr[4].Int(), t.Arr[5].F())
+		case "invt":
+			o.fn = stats.InvCDF(stats.TDist{V: t.Arr[2].F()})
+		case "invpw": // a user-defined CDF: uniform on [lo, hi]
+			lo, hi := t.Arr[2].F(), t.Arr[3].F()
+			o.fn = stats.InvCDF(&pwDist{x: []float64{lo, hi}, l: []float64{0, 1}, r: []float64{0, 1}})
+		case "vec":
+			vf := vec.Vectorize(math.Sqrt)
+			o.fn = func(x float64) float64 { return vf([]float64{x, 2 * x})[1] }
+		default:
+			panic("fn kind")
 		}
 	case "g":
 		o.g = graph.IntGraph(t.Arr[1].Intss())
@@ -478,6 +496,11 @@ var opTable = map[string]opSpec{
 		}
 		r := fit.PolynomialRegression(o[0].f[:n], o[1].f[:n], o[2].f[:n], 1)
 		return fbits(r.Coefficients)
+	}},
+	// a function obtained from the library earlier, shared by every caller (one closure, many goroutines)
+	"Fn.Call": {[]string{"fn"}, 1, false, func(o []*obj, p []float64) []uint64 {
+		x := p[0]
+		return append(f1(o[0].fn(x)), f1(o[0].fn(math.Abs(x)/(1+math.Abs(x))))...)
 	}},
 	"LOESS": {[]string{"f", "f"}, 1, false, func(o []*obj, p []float64) []uint64 {
 		n := len(o[0].f)
@@ -818,6 +841,18 @@ func genC20(w *bufio.Writer, tier string, rng *rand.Rand) {
 		add("lin", fmt.Sprintf("[lin,%s,%s,%d]", fmtF(float64(rng.Intn(10))/4), fmtF(3+float64(rng.Intn(40))/4), []int{0, 2, 10}[rng.Intn(3)]))
 		add("lg", fmt.Sprintf("[lg,%s,%s,10]", fmtF(0.5+float64(rng.Intn(10))), fmtF(50+float64(rng.Intn(5000)))))
 		add("i", fmt.Sprintf("[i,%s]", fmtInts(rng.Perm(4+rng.Intn(6)))))
+		{ // derived functions
+			nn := 12 + rng.Intn(30)
+			lx, ly := make([]float64, nn), make([]float64, nn)
+			for i := range lx {
+				lx[i] = float64(i)/4 + float64(rng.Intn(3))/16
+				ly[i] = math.Round(math.Sin(lx[i])*64)/64 + float64(rng.Intn(5))/8
+			}
+			add("fn", fmt.Sprintf("[fn,loess,%s,%s,%d,%s]", fmtFs(lx), fmtFs(ly), 1+rng.Intn(2), fmtF([]float64{0.5, 0.75, 0.3}[rng.Intn(3)])))
+			add("fn", fmt.Sprintf("[fn,invt,%s]", fmtF(float64(1+rng.Intn(12)))))
+			add("fn", fmt.Sprintf("[fn,invpw,%s,%s]", fmtF(float64(rng.Intn(10))), fmtF(float64(20+rng.Intn(100)))))
+			add("fn", "[fn,vec]")
+		}
 		add("ud", fmt.Sprintf("[ud,%d,%d,%s]", 3, 4, []string{"[]", "[2,4,1]", "[1,1,1,1,1,1,1]"}[rng.Intn(3)]))
 		// distributions that share one sample size and differ in the other, both orders, one tied
 		um, ua := 2+rng.Intn(4), 5+rng.Intn(7)
@@ -871,6 +906,8 @@ func genC20(w *bufio.Writer, tier string, rng *rand.Rand) {
 		}
 		if rng.Intn(3) == 0 {
 			focus = []string{"UD.At", "UD.CDF", "MannWhitney", "UD.At"}
+		} else if rng.Intn(4) == 0 {
+			focus = []string{"Fn.Call", "Fn.Call", "LOESS", "K.CDF"}
 		}
 		pickName := func() string {
 			if rng.Intn(2) == 0 {
